@@ -2,25 +2,36 @@
    the real sse.Client/Connection behind a scripted http.RoundTripper.
 
    input : ( cfg steps )
-     cfg  = ( backoff body n<OnRetry set> (opt x<initial Last-Event-ID header>) (opt z<patience>) n<cancelled before> )
+     cfg  = ( backoff body n<OnRetry set> (opt x<initial Last-Event-ID header>) (opt z<patience>) n<cancelled before>
+              n<other connections> ( n<RoundTrip us> n<body end us> ) )
        backoff as in the family "backoff"; body = ( n<kind> n<after> n<e> ) with kind 0 = no body,
        1 = http.NoBody, 2 = body without GetBody, 3 = body with GetBody, 4 = GetBody fails with error e
        after [after] successful calls; patience: the context is cancelled inside OnRetry when the wait is
        at least this long; cancelled before: the context is done before Connect is called (the first select may
        take either branch; the scripted RoundTripper, like a real transport, fails a request on a done context with
-       the context's error without serving it, so both branches are the same observation)
+       the context's error without serving it, so both branches are the same observation);
+       other connections: how many Connections the same Client produced before this one (NewConnection normalises
+       the Client's configuration in place; the configuration a Connection runs with does not depend on how often);
+       the last pair: how long the scripted RoundTrip / the end of a scripted body take (harness only: the model has
+       no clock, the waits it grants do not depend on how long an attempt took)
+     n<e>: the index of an injected error VALUE.  The harness gives the value a character by e / 1000 (plain; Temporary();
+       Timeout(); wrapping io.EOF, io.ErrUnexpectedEOF, os.ErrDeadlineExceeded; *net.OpError around a wrapped io.EOF) and
+       projects what it observes by identity; model and oracle take e as opaque: the properties say what happens to an
+       error by where it arose (transport, validator, reader, GetBody), never by what it looks like
      step = ( n0 n<e> )                     Do fails with injected error e
           | ( n1 )                          the context is cancelled inside RoundTrip, Do fails with its error
           | ( n2 n<e> )                     the validator rejects the response with error e
           | ( n3 x<body> ending chunks )    accepted response; ending = (n0) EOF | (n1 n<e>) read error e
                                             | (n2 n<how>) cancellation inside Read; chunks: harness only
-   output: ( ( item ... ) result )
+   output: ( ( item ... ) result ( n<waited> ... ) )
      item = ( n0 ( x<header value> ... ) (opt n<body generation>) )    a request at the RoundTripper
           | ( n1 x<LastEventID> x<Type> x<Data> )                     an event at a SubscribeToAll callback
           | ( n2 ret z<duration> )                                    OnRetry(err, duration)
      ret  = (n0) nil | (n1) the context's error | ( n2 n<reason> err )  *ConnectionError
      err  = (n0) io.EOF | (n1) io.ErrUnexpectedEOF | (n2 n<e>) injected | (n3) context | (n4) ErrNoGetBody | (n5) too long
-     result = () Connect was still running when the script ran out | ( ret ) *)
+     result = () Connect was still running when the script ran out | ( ret )
+     waited: one per OnRetry call that is followed by a request - whether at least the duration handed to OnRetry
+       passed (monotonic clock) between the end of that call and the start of the RoundTrip: "the wait actually used" *)
 From GoSse Require Import Base Whatwg Backoff Connect Run RunClient.
 From GoSse.Gen Require Import Params.
 Local Open Scope Z_scope.
@@ -85,9 +96,20 @@ Definition enc_titem (i : titem) : val :=
   | TOnRetry err d => VL [VN 2; enc_cret err; VZ d]
   end.
 
+(* the OnRetry calls that are followed by a request: each of these waits was slept in full *)
+Fixpoint timed_waits (tr : list titem) : list val :=
+  match tr with
+  | [] => []
+  | i :: r =>
+      match i, r with
+      | TOnRetry _ _, TRequest _ _ :: _ => vbool true :: timed_waits r
+      | _, _ => timed_waits r
+      end
+  end.
+
 Definition run_connect (i : val) : val :=
   let '(tr, r) := connect_run (dec_ccfg (nth_val 0 i)) (map dec_step (as_l (nth_val 1 i))) in
-  VL [VL (map enc_titem tr); vopt enc_cret r].
+  VL [VL (map enc_titem tr); vopt enc_cret r; VL (timed_waits tr)].
 
 (* ---- the oracles ------------------------------------------------------------------------------
    One walk over the script and the OBSERVED trace, written from the three property texts; the clauses
@@ -225,4 +247,6 @@ Definition holds_connect (mask : tag) (i o : val) : bool :=
 Definition holds_connect_c10 := holds_connect T10.
 Definition holds_connect_c11 (i o : val) : bool :=
   negb (val_eqb (nth_val 1 o) (VL [enc_cret RNil])) && holds_connect T11 i o.
-Definition holds_connect_c12 := holds_connect T12.
+(* C12 also: the wait handed to OnRetry is the wait actually used - no request started earlier than that *)
+Definition holds_connect_c12 (i o : val) : bool :=
+  forallb as_bool (as_l (nth_val 2 o)) && holds_connect T12 i o.
